@@ -11,13 +11,15 @@ FAMILIES = {
     "card": "harness.check_card",
     "paths": "harness.check_paths",
     "clone": "harness.check_clone",
+    "merge": "harness.check_merge",
 }
 # property -> families whose judges print verdicts for it
 PROPS = {
-    "C03": ["tree", "clone"], "C04": ["tree", "clone"], "C05": ["values"], "C06": ["tree", "values", "card"],
+    "C03": ["tree", "clone"], "C04": ["tree", "clone"], "C05": ["values"], "C06": ["tree", "values", "card", "merge"],
     "C09": ["card"],
     "C14": ["paths"],
     "C11": ["clone", "values"],
+    "C13": ["merge"],
 }
 EXPLAIN = {}
 
